@@ -196,6 +196,9 @@ def run(c, chk):
                 rule, ln = dfa.match(scname, s[i:])
                 neval += 1
                 got = K.get(rule, ['?'])
+                if len(got) > 1:
+                    # the action branches on the matched text: keep the paths this text can take
+                    got = lexmodel.classes_for(lex, rule, s[i:i + ln])
                 good = (ln == exp[1]) and implements(exp[0], got)
                 if good and exp[0].startswith('env') and len(exp) > 2:
                     pass
@@ -364,8 +367,12 @@ def run(c, chk):
     for r in sorted(dfa.firing_rules('comment')):
         k = K.get(r, ['?'])
         ncomm += 1
-        fine = all(x in ('all', 'skip', 'all+line1', 'skip+line1') for x in k) or \
-            all(x.startswith('return(8,begin0,') for x in k)
+        w_ = dfa.firing_rules('comment').get(r, b'')
+        kk = lexmodel.classes_for(lex, r, w_) if w_ else k
+        literal = set(['all', 'skip', 'all+line1', 'skip+line1'])
+        if len(w_) == 1:
+            literal |= {'const(%d)' % w_[0], 'const(%d)+line1' % w_[0], 'byte0', 'byte0+line1'}
+        fine = all(x in literal for x in kk) or all(x.startswith('return(8,begin0,') for x in kk)
         if not fine:
             chk.fail('R3.5', 'comment-body:%s' % dfa.rule_text.get(r), 'src/lexer.l:%d' % dfa.rule_line.get(r, 0),
                      '%s fires inside a comment with effect %s' % (lex.rule_name(r), k))
